@@ -10,6 +10,7 @@ import (
 	"os"
 	"runtime/debug"
 
+	"github.com/protolambda/zrnt/eth2/beacon/altair"
 	"github.com/protolambda/zrnt/eth2/beacon/common"
 	"github.com/protolambda/zrnt/eth2/beacon/phase0"
 	"github.com/protolambda/ztyp/tree"
@@ -258,6 +259,18 @@ func extensions() []Variant {
 		// ---- attestations ----------------------------------------------------------------------
 		{"attestation-target-epoch-mismatch", "attestation", P0, edited(editAtt(false, func(pre *chain.StateCtx, a *phase0.Attestation, in, out []common.ValidatorIndex) error {
 			a.Data.Target.Epoch++
+			return nil
+		}))},
+		// target.epoch in (previous_epoch, current_epoch), lower side: the attestation moved back by whole epochs to
+		// two epochs ago (slot and target stay consistent), signed by its participants
+		{"attestation-target-before-previous-epoch", "attestation", P0, edited(editAtt(false, func(pre *chain.StateCtx, a *phase0.Attestation, in, out []common.ValidatorIndex) error {
+			cur := pre.Epoch()
+			if cur < 2 || a.Data.Target.Epoch+2 <= cur {
+				return ErrNotApplicable
+			}
+			back := a.Data.Target.Epoch - (cur - 2)
+			a.Data.Slot -= common.Slot(back) * pre.Spec.SLOTS_PER_EPOCH
+			a.Data.Target.Epoch = cur - 2
 			return nil
 		}))},
 		{"attestation-wrong-source-root", "attestation", P0, edited(editAtt(false, func(pre *chain.StateCtx, a *phase0.Attestation, in, out []common.ValidatorIndex) error {
@@ -574,6 +587,25 @@ func extensions() []Variant {
 			return nil
 		})},
 		// ---- sync aggregate ------------------------------------------------------------------------
+		// not a value of Bitvector[SYNC_COMMITTEE_SIZE]: one more (zero) byte, signature and participants untouched
+		{"sync-aggregate-bits-too-long", "sync_aggregate", chain.Altair, edited(func(pre *chain.StateCtx, env *common.BeaconBlockEnvelope, ops *chain.BodyOps) error {
+			if ops.SyncAggregate == nil {
+				return ErrNotApplicable
+			}
+			ops.SyncAggregate.SyncCommitteeBits = append(append(altair.SyncCommitteeBits(nil), ops.SyncAggregate.SyncCommitteeBits...), 0)
+			return nil
+		})},
+		{"sync-aggregate-bits-too-short", "sync_aggregate", chain.Altair, edited(func(pre *chain.StateCtx, env *common.BeaconBlockEnvelope, ops *chain.BodyOps) error {
+			if ops.SyncAggregate == nil || len(ops.SyncAggregate.SyncCommitteeBits) < 1 {
+				return ErrNotApplicable
+			}
+			b := ops.SyncAggregate.SyncCommitteeBits
+			if b[len(b)-1] != 0 {
+				return ErrNotApplicable // the dropped byte carries no participant: the signature still matches the rest
+			}
+			ops.SyncAggregate.SyncCommitteeBits = append(altair.SyncCommitteeBits(nil), b[:len(b)-1]...)
+			return nil
+		})},
 		{"sync-aggregate-bit-cleared", "sync_aggregate", chain.Altair, edited(func(pre *chain.StateCtx, env *common.BeaconBlockEnvelope, ops *chain.BodyOps) error {
 			if ops.SyncAggregate == nil {
 				return ErrNotApplicable
@@ -881,6 +913,20 @@ func overLimitVariants() []Variant {
 		return Variant{name, "limits", min, edited(edit)}
 	}
 	return []Variant{
+		// the slashed "proposer" is not in the registry (both headers name index len(validators))
+		{"proposer-slashing-index-out-of-range", "proposer_slashing", chain.Phase0, edited(func(pre *chain.StateCtx, env *common.BeaconBlockEnvelope, ops *chain.BodyOps) error {
+			if err := ensurePS(pre, env, ops); err != nil {
+				return err
+			}
+			ps := &(*ops.ProposerSlashings)[0]
+			k := pre.KeyOf(ps.SignedHeader1.Message.ProposerIndex)
+			n := common.ValidatorIndex(len(pre.Validators()))
+			ps.SignedHeader1.Message.ProposerIndex, ps.SignedHeader2.Message.ProposerIndex = n, n
+			dom := pre.Domain(common.DOMAIN_BEACON_PROPOSER, pre.Spec.SlotToEpoch(ps.SignedHeader1.Message.Slot))
+			ps.SignedHeader1.Signature = pre.Keys.Sign1(k, htr(&ps.SignedHeader1.Message), dom)
+			ps.SignedHeader2.Signature = pre.Keys.Sign1(k, htr(&ps.SignedHeader2.Message), dom)
+			return nil
+		})},
 		lim("proposer-slashings-over-limit", chain.Phase0, func(pre *chain.StateCtx, env *common.BeaconBlockEnvelope, ops *chain.BodyOps) error {
 			n := int(pre.Spec.MAX_PROPOSER_SLASHINGS) + 1
 			who := healthyFromTop(pre, env, n, nil)
